@@ -143,7 +143,8 @@ def only_new_channel_left(before, after, name):
         return False
     terms = [l2.snap_equal({k: v for k, v in as_.items() if k != name}, bs),
              l2.snap_equal(before["calls"], after["calls"]), l2.snap_equal(before["to_build_calls"], after["to_build_calls"]),
-             l2.snap_equal(before["flags"], after["flags"])]
+             # (the first channel of a sequence also switches it to Ising mode)
+             l2.snap_equal({k: v for k, v in before["flags"].items() if k != "in_ising"}, {k: v for k, v in after["flags"].items() if k != "in_ising"})]
     for b, d in before["basis_ref"].items():
         terms.append(l2.snap_equal(d, after["basis_ref"].get(b)))
     return AND(*terms)
